@@ -443,6 +443,61 @@ def rule_records(facts):
     return r
 
 
+def rule_padding_helpers(facts):
+    """Where a padding check is delegated to a helper returning bool, the helper must be a zero test of every byte: each
+    byte compared with 0, or an OR-accumulation compared with 0.  (An XOR / sum accumulation lets pairs of non-zero bytes
+    cancel out.)  flush_zero_padding, the scan loop, is decided by C13."""
+    r = report.RuleResult("C06.R5", "a delegated padding check tests every byte for zero")
+    helpers = {}
+    for b in facts.bodies:
+        if b.promoted is not None or not short(b.name).startswith(("decode::xz::", "decode::util::")):
+            continue
+        for blk in b.calls():
+            nm = flow.callee(blk.term) or ""
+            cal = blk.term.callee
+            if cal is not None and cal.target().local and "zero_padding" in nm and not nm.endswith("flush_zero_padding"):
+                helpers[cal.target().defk] = nm
+    r.sites = len(helpers)
+    for dk, nm in sorted(helpers.items(), key=lambda x: x[1]):
+        hb = facts.by_def.get(dk)
+        if hb is None:
+            continue
+        bodies = [hb] + [x for x in facts.bodies if x.promoted is None and x.name.startswith(hb.name.split("::<")[0]) and "closure" in x.name]
+        ops = set()
+        zero_cmp = False
+        for x in bodies:
+            for blk in x.blocks:
+                if blk.cleanup:
+                    continue
+                for s_ in blk.stmts:
+                    if s_.k == "assign" and s_.rv.k == "binop":
+                        op = s_.rv.binop.replace("WithOverflow", "")
+                        a_, b_ = s_.rv.a, s_.rv.b
+                        byteish = any(o.ty.s in ("u8", "&u8") or (o.ty.k == "ref" and getattr(o.ty, "to", None) is not None and o.ty.to.s == "u8") for o in (a_, b_))
+                        if op in ("Eq", "Ne") and (a_.const_int() == 0 or b_.const_int() == 0) and byteish:
+                            zero_cmp = True
+                        elif byteish and op in ("BitXor", "Add", "Sub", "Mul", "BitAnd", "Shl", "Shr", "BitOr"):
+                            ops.add(op)
+            for blk in x.calls():
+                d_ = (flow.declared(blk.term) or "") + " " + (flow.callee(blk.term) or "")
+                for tr, op in (("BitXor::bitxor", "BitXor"), ("BitOr::bitor", "BitOr"), ("Add::add", "Add"), ("Sub::sub", "Sub"), ("Mul::mul", "Mul"),
+                               ("BitAnd::bitand", "BitAnd"), ("wrapping_add", "Add"), ("BitXorAssign", "BitXor"), ("BitOrAssign", "BitOr"),
+                               ("AddAssign", "Add"), ("Iterator::sum", "Add")):
+                    if tr in d_:
+                        ops.add(op)
+        where = "%s (%s)" % (short(hb.name), hb.span)
+        if ops - {"BitOr"}:
+            r.bad("%s|accumulation" % short(hb.name).split("::")[-1], "%s combines the padding bytes with %s before the zero test: non-zero bytes "
+                  "can cancel out and pass" % (short(hb.name), "/".join(sorted(ops - {"BitOr"}))), where)
+        elif zero_cmp:
+            r.ok("predicate", {"helper": short(hb.name), "test": "every byte == 0" if not ops else "OR of the bytes == 0"})
+        else:
+            r.bad("%s|predicate" % short(hb.name).split("::")[-1], "cannot see a comparison of the padding bytes with zero in %s" % short(hb.name), where, "unverifiable")
+    if not helpers:
+        r.ok("inline", {"padding checks": "inline byte comparisons (rows 9 and 14 of the table)"})
+    return r
+
+
 def rule_read_tag(facts):
     r = report.RuleResult("C06.R4", "a magic is accepted only after all of its bytes were read and compared")
     b = None
@@ -486,7 +541,7 @@ def rule_read_tag(facts):
 def run(ctx, t0):
     facts = ctx.facts()
     r1, r3 = rule_table(facts)
-    rules = [r1, rule_digest(facts), r3, rule_records(facts), rule_read_tag(facts)]
+    rules = [r1, rule_digest(facts), r3, rule_records(facts), rule_read_tag(facts), rule_padding_helpers(facts)]
     # rows 3, 4 and 20 are decided by the C18 rules (reserved bits, id table, trailing data)
     rules.append(C18.rule_reserved(facts))
     rules.append(C18.rule_trailing(facts))
